@@ -106,10 +106,12 @@ static int bind_dgram(const char *path) {
 /* "stack <KiB>": the following failing-exec calls are issued from a fresh thread with a stack of that size
  * (the library runs on the caller's stack: its stack use must not depend on the configuration) */
 static size_t STACK_KIB = 0;
+/* "errno <n>": errno as the following calls find it (a previous exec that failed, any earlier libc failure of the caller); default 0 */
+static int PRESET_ERRNO = 0;
 struct thr_call { int is_execv; int r; int e; };
 static void *thr_call_main(void *p) {
     struct thr_call *x = p;
-    errno = 0;
+    errno = PRESET_ERRNO;
     x->r = x->is_execv ? execv(verif_expect.path, verif_expect.argv) : execve(verif_expect.path, verif_expect.argv, verif_expect.envp);
     x->e = errno;
     return NULL;
@@ -151,7 +153,7 @@ static int do_call(int nf, char **f) {
             pthread_join(th, NULL);
             r = x.r; e = x.e;
         } else {
-            errno = 0;
+            errno = PRESET_ERRNO;
             r = is_execv ? execv(verif_expect.path, verif_expect.argv) : execve(verif_expect.path, verif_expect.argv, verif_expect.envp);
             e = errno;
         }
@@ -207,6 +209,7 @@ static void handle_line(int nf, char **f) {
         if (!strcmp(f[1], "closed")) close(0);
         else if (!strcmp(f[1], "null")) { int fd = open("/dev/null", O_RDONLY); dup2(fd, 0); close(fd); }
     } else if (!strcmp(f[0], "stack") && nf >= 2) { STACK_KIB = (size_t) atol(f[1]);
+    } else if (!strcmp(f[0], "errno") && nf >= 2) { PRESET_ERRNO = atoi(f[1]);
     } else if (!strcmp(f[0], "call")) { do_call(nf, f);
     } else if (!strcmp(f[0], "state")) { verif_sample_state(nf >= 2 ? f[1] : "mark");
     }
